@@ -106,6 +106,20 @@ def kindOfToks (toks : List Tok) : Kind :=
   | .start n _ :: _ => if n.loc == "presence" then .pres else .msg
   | _ => .msg
 
+/-- one dispatch of an overlap line, on its own: a message / presence through `stanzaRoute`, an
+IQ through `iqRouteA` -/
+def encDispatch (pats : Table) (toks : List Tok) (cons : List Nat) : String :=
+  match toks with
+  | .start n _ :: _ =>
+    if n.loc == "iq" then
+      (match iqRouteA pats toks (cons.headD 0) with
+       | .handler p pn view => "h=" ++ encPattern p ++ "@" ++ hexF pn.space ++ ":" ++ hexF pn.loc ++ "=" ++ encToks view
+       | .reply h => "fallback@" ++ hexF h.to ++ "/" ++ hexF h.frm ++ "/" ++ hexF h.id
+       | .nothing => "nothing"
+       | .err => "err")
+    else encCalls (stanzaRoute .sep pats (kindOfToks toks) toks cons)
+  | _ => "-"
+
 def handle (args : List String) : Option String :=
   match args with
   | ["elem", ctor, ns, pats, toks, cons] => do
@@ -125,9 +139,8 @@ def handle (args : List String) : Option String :=
     let pats ← decPatterns pats
     let toksA ← decToks toksA; let consA ← decNats consA
     let toksB ← decToks toksB; let consB ← decNats consB
-    -- the multiplexer keeps nothing between or during dispatches: each is its own `stanzaRoute`
-    pure (encCalls (stanzaRoute .sep pats (kindOfToks toksA) toksA consA) ++ "&" ++
-          encCalls (stanzaRoute .sep pats (kindOfToks toksB) toksB consB))
+    -- the multiplexer keeps nothing between or during dispatches: each is its own router run
+    pure (encDispatch pats toksA consA ++ "&" ++ encDispatch pats toksB consB)
   | ["direct", fr, k, typ, pats, toks, cons, errs, pm] => do
     let fr ← (if fr == "sep" then some Framing.sep else if fr == "eof" then some Framing.eof else none)
     let k ← decKind k; let typ ← field typ; let pats ← decPatterns pats
